@@ -205,6 +205,40 @@ func VerifC25Unique() {
 	rt.Reach("end")
 }
 
+// VerifC25ReplacedAndGone: a session call is replaced by a newer call of the same pair while its own
+// client goes away (or it sends a request) in the same instant, under every run-to-block order of the
+// calls involved: the newer call is not disturbed — it never ends with the replaced error, since
+// nothing replaced it — and when every call has ended the relay holds no state.
+func VerifC25ReplacedAndGone() {
+	rt.SchedBound(0, false)
+	s := c24New()
+	var ans *svSession
+	if rt.Choose("answered", 2) == 1 {
+		ans = s.w.open("answer", s.L, s.P[0])
+	}
+	o1 := s.w.open("older", s.P[0], s.L)
+	rt.Quiesce()
+	// the newer call arrives; the older call's client goes away at the same time: from here on every
+	// choice of the next runnable call is explored
+	rt.SchedBound(0, true)
+	o2 := s.w.open("newer", s.P[0], s.L)
+	o1.cancel()
+	rt.Quiesce()
+	rt.SchedBound(0, false)
+	rt.Assert("the older call has ended", o1.done)
+	rt.Assert("the newest call of the pair stays active (nothing replaced it and its client is there)", !o2.done)
+	if ans != nil {
+		_, isOpen, _ := o2.lastAnnounced()
+		rt.Assert("the newest call is attached to the answering session", isOpen)
+		ans.cancel()
+	}
+	o2.cancel()
+	rt.Quiesce()
+	rt.Assert("no per-peer state is left when all calls have ended", len(s.w.srv.peers) == 0)
+	rt.Assert("no per-session state is left when all calls have ended", len(s.w.srv.sessions) == 0)
+	rt.Reach("end")
+}
+
 // VerifC24SlowListener: the listen stream is slow (one of its first two Sends blocks) while two peers
 // open and close sessions; once the stream drains, the announced set still converges to the peers that
 // hold an open session request.
